@@ -22,6 +22,18 @@ import (
 
 func verifC17Packet(code OptionCode, n int) (p *DHCPv4, raw []byte) {
 	p = &DHCPv4{Options: Options{}}
+	// the packet is not fresh: the option held another value a moment ago and every typed
+	// accessor was called on it (an accessor that remembers what it decoded would now be stale);
+	// the raw bytes are then replaced through the exported Options map, as the property's
+	// observation point does
+	p.Options[code.Code()] = []byte{1, 3, 6, 15, 28, 42, 51, 58}
+	for k, name := range verifPacketReaderNames {
+		if name == "Summary" || name == "String" || name == "ToBytes" {
+			continue
+		}
+		verifPacketReader(p, k)
+	}
+	delete(p.Options, code.Code())
 	switch {
 	case n >= 0:
 		raw = verifBytes("raw", n)
